@@ -26,7 +26,7 @@ names = [a.split("=")[1].split(",") for a in args if a.startswith("--seeds=")]
 noself = "--noself" in args
 
 jobs = []
-for sd in sorted(p for p in (V / "seeded").iterdir() if p.is_dir()):
+for sd in sorted(p for p in (V / "seeded").iterdir() if p.is_dir() and (p / "meta.json").exists()):
     meta = json.loads((sd / "meta.json").read_text())
     pid = meta["property"]
     if props and pid not in props:
